@@ -11,11 +11,22 @@ import (
 
 var stringToNumberParseInteger = regexp.MustCompile(`^(?:0[xX])`)
 
+// ECMA 262 9.3.1: StrDecimalLiteral and HexIntegerLiteral. strconv accepts more
+// than these (digit separators, "inf", "nan", hexadecimal floats, 0b/0o).
+var (
+	stringToNumberDecimalLiteral = regexp.MustCompile(`^[+-]?(?:Infinity|(?:[0-9]+\.?[0-9]*|\.[0-9]+)(?:[eE][+-]?[0-9]+)?)$`)
+	stringToNumberHexLiteral     = regexp.MustCompile(`^0[xX][0-9a-fA-F]+$`)
+)
+
 func parseNumber(value string) float64 {
 	value = strings.Trim(value, builtinStringTrimWhitespace)
 
 	if value == "" {
 		return 0
+	}
+
+	if !stringToNumberDecimalLiteral.MatchString(value) && !stringToNumberHexLiteral.MatchString(value) {
+		return math.NaN()
 	}
 
 	var parseFloat bool
